@@ -230,7 +230,20 @@ class Tr:
         if k == 'CXXConstructExpr' and len(inner) == 1:
             return self.expr(inner[0], env)
         if k == 'UnaryExprOrTypeTraitExpr':
-            raise Untranslatable(f'{self.c.fname}: sizeof/alignof must be supplied as a constant')
+            if n.get('name') != 'sizeof':
+                raise Untranslatable(f'{self.c.fname}: {n.get("name")} is not supported')
+            at = n.get('argType', {})
+            aq = at.get('desugaredQualType', at.get('qualType', ''))
+            it = int_type(aq)
+            if it is not None and not aq.strip().endswith('*') or (it is not None and aq.strip().endswith('*')):
+                return (str(max(1, it[0] // 8)), (64, False))
+            # sizeof of a class type: symbolic parameter (declared in the unit table)
+            for sub, pname in self.c.unit.get('sizeof_params', {}).items():
+                if sub in aq or sub in at.get('qualType', ''):
+                    if pname not in self.c.params:
+                        self.c.params.append(pname)
+                    return ('P_' + pname, (64, False))
+            raise Untranslatable(f'{self.c.fname}: sizeof({aq}) is not declared in sizeof_params')
         raise Untranslatable(f'{self.c.fname}: expression kind {k}')
 
     def known_member_calls(self):
